@@ -265,6 +265,12 @@ func genProgram(r *rand.Rand, o *progOpts) []Call {
 				// a viewBox less than one unit across (coordinates are quantised to 1/64 of a unit all the same)
 				c = [](Call){mkCall("Reset", 0, 0, 0.5, 0.75), mkCall("Reset", -0.25, -0.25, 0.25, 0.25), mkCall("Reset", 3, 3, 3.015625, 4)}[r.Intn(3)]
 			}
+			if r.Intn(5) == 0 {
+				// viewBox numbers off the 1/64 grid, inside and at the edge of the range of the short coordinate forms: the
+				// viewBox is metadata, not a path coordinate - it is not quantised at either resolution
+				c = [](Call){mkCall("Reset", -0.3, -0.7, 0.3, 0.7), mkCall("Reset", -33.3, -10.01, 33.3, 10.01), mkCall("Reset", 1.0/3, 2.0/3, 127.99, 127.995),
+					mkCall("Reset", -128.004, -127.999, 5, 7), mkCall("Reset", -0.6953125, -0.6953125, 0.6953125, 0.6953125)}[r.Intn(5)]
+			}
 			pal := defaultPal()
 			for i := 0; i < r.Intn(5); i++ {
 				col := randColor(r, &progOpts{})
